@@ -985,8 +985,37 @@ func ToOctet(arg Object) (result Object) {
 	return
 }
 
+// exactRational returns the exact value of a finite real number or nil.
+func exactRational(v Object) (r *big.Rat) {
+	switch tv := v.(type) {
+	case Fixnum:
+		r = new(big.Rat).SetInt64(int64(tv))
+	case Octet:
+		r = new(big.Rat).SetInt64(int64(tv))
+	case *Bignum:
+		r = new(big.Rat).SetInt((*big.Int)(tv))
+	case *Ratio:
+		r = (*big.Rat)(tv)
+	case SingleFloat:
+		r = new(big.Rat).SetFloat64(float64(tv)) // nil if not finite
+	case DoubleFloat:
+		r = new(big.Rat).SetFloat64(float64(tv))
+	case *LongFloat:
+		if !(*big.Float)(tv).IsInf() {
+			r, _ = (*big.Float)(tv).Rat(nil)
+		}
+	}
+	return
+}
+
 // LessThan returns true if v0 is less than v1.
 func LessThan(v0, v1 Object) bool {
+	// Finite reals are compared by their exact values. NormalizeNumber
+	// converts a rational to the float type of the other number which rounds
+	// it: 9007199254740993 is not less than or equal to 9007199254740992.0.
+	if r0, r1 := exactRational(v0), exactRational(v1); r0 != nil && r1 != nil {
+		return r0.Cmp(r1) < 0
+	}
 	v0, v1 = NormalizeNumber(v0, v1)
 	switch ta := v0.(type) {
 	case Fixnum:
